@@ -67,3 +67,60 @@ def FlakyWf(x: int) -> int:
     a = workflow.add(Flaky(x=x, tag=1), name="a")
     b = workflow.add(Flaky(x=a.out, tag=2), name="b")
     return b.out
+
+
+@python.define
+def Node(x: int, tag: int = 0, fail: bool = False) -> int:
+    """generic workflow node body: logs, optionally fails, returns x + tag"""
+    import vf.rec as R
+    R.rec("Node", x, tag)
+    if fail:
+        raise ValueError("node %d failed" % tag)
+    return x + tag
+
+
+@python.define
+def Join(x: int, y: int, tag: int = 0) -> int:
+    import vf.rec as R
+    R.rec("Join", x, y, tag)
+    return x * 1000 + y + tag
+
+
+@workflow.define(outputs=["f", "m"])
+def IndepChains(x: int, f_fails: bool = False, k_fails: bool = False):
+    """f (may fail) next to the independent chain k -> m"""
+    f = workflow.add(Node(x=x, tag=1, fail=f_fails), name="f")
+    k = workflow.add(Node(x=x, tag=2, fail=k_fails), name="k")
+    m = workflow.add(Node(x=k.out, tag=3), name="m")
+    return f.out, m.out
+
+
+@workflow.define(outputs=["j", "t"])
+def ForkJoin(x: int, p_fails: bool = False, q_fails: bool = False):
+    """s -> (p, q) -> j ; plus an independent tail t"""
+    s = workflow.add(Node(x=x, tag=1), name="s")
+    p = workflow.add(Node(x=s.out, tag=2, fail=p_fails), name="p")
+    q = workflow.add(Node(x=s.out, tag=3, fail=q_fails), name="q")
+    j = workflow.add(Join(x=p.out, y=q.out, tag=4), name="j")
+    t = workflow.add(Node(x=x, tag=5), name="t")
+    u = workflow.add(Node(x=t.out, tag=6), name="u")
+    return j.out, u.out
+
+
+@workflow.define(outputs=["sp", "m"])
+def SplitAndChain(xs: list[int], k_fails: bool = False):
+    """a split node next to the chain k -> m"""
+    sp = workflow.add(Node(tag=1).split(x=xs), name="sp")
+    k = workflow.add(Node(x=7, tag=2, fail=k_fails), name="k")
+    m = workflow.add(Node(x=k.out, tag=3), name="m")
+    return sp.out, m.out
+
+
+@workflow.define(outputs=["a", "b", "c", "d"])
+def Wide(x: int):
+    """four independent nodes"""
+    a = workflow.add(Node(x=x, tag=1), name="a")
+    b = workflow.add(Node(x=x, tag=2), name="b")
+    c = workflow.add(Node(x=x, tag=3), name="c")
+    d = workflow.add(Node(x=x, tag=4), name="d")
+    return a.out, b.out, c.out, d.out
